@@ -130,8 +130,8 @@ class ClassInfo:
 
 
 def _split_mode_helpers(tree: ast.Module) -> None:
-    """Normalisation at load time: a private module-level helper that takes a *mode flag* - a parameter it only ever
-    truth-tests - and has one call site passing a non-constant flag is two helpers merged into one.  The rule tables know
+    """Normalisation at load time: a private module-level generator that takes a *mode flag* - a parameter annotated
+    ``bool`` that it only ever truth-tests - and has one call site passing a non-constant flag is two helpers merged into one.  The rule tables know
     the two (``_zip_inner`` / ``_zip_inner_strict``), so the merge is undone: two specialised copies with the flag folded
     to False / True (dead branches then never enter the CFG), and the call ``_h(a, flag)`` becomes
     ``_h(a) if not flag else _h__on(a)``.  Only done where that is evidently the same program: the flag parameter is
@@ -159,10 +159,15 @@ def _split_mode_helpers(tree: ast.Module) -> None:
         a = fn.args
         if a.vararg or a.kwarg or a.kwonlyargs or a.posonlyargs or a.defaults or len(a.args) < 2 or len(call.args) != len(a.args):
             continue
+        if not any(isinstance(x, (ast.Yield, ast.YieldFrom)) for x in ast.walk(fn)):
+            continue  # (a plain function or coroutine is seen through by the inlined views; only generators need this)
         for k in range(1, len(a.args)):
             flag, actual = a.args[k].arg, call.args[k]
             if isinstance(actual, ast.Constant) or not all(isinstance(x, ast.Name) for i, x in enumerate(call.args) if i != k):
                 continue
+            ann = a.args[k].annotation
+            if not (isinstance(ann, ast.Name) and ann.id == "bool"):
+                continue  # (the truth value of anything but a bool may change between the call and the test)
             if not _only_truth_tested(fn, flag):
                 continue
             variants = []
